@@ -127,6 +127,36 @@ pub fn build_pool(ctx: &Ctx, rng: &mut Rng, cache: &mut TreeCache, tool: Option<
             pool.push(Triple { alg, levels: lv, seed: sig[4..12].to_vec(), counter: qs[0] as u64, msg, sig, pk, origin: "model-synthetic-tall" });
         }
     }
+    // signatures in which an upper level VALIDLY signs a malformed or foreign child public key
+    // (only the holder of the signing key can make these; no mutation of a finished signature
+    // gets past the parent's signature): RFC 8554 rejects them when it interprets the child key
+    for alg in model::ALL_ALGS {
+        let cfg = lcfg(alg);
+        let forgeries: Vec<(&str, usize, u32)> = vec![
+            ("lmstype", 0, 0), ("lmstype", 0, 2), ("lmstype", 0, 4), ("lmstype", 0, 6), ("lmstype", 0, 10), ("lmstype", 0, 0xe000_0005), ("lmstype", 0, 0x0500_0000),
+            ("otstype", 4, 0), ("otstype", 4, 1), ("otstype", 4, 5), ("otstype", 4, 0x100), ("otstype", 4, u32::MAX),
+        ];
+        for (fi, (what, off, val)) in forgeries.iter().enumerate() {
+            for spec in [vec![(5u32, 8u32), (5, 4)], vec![(5, 4), (5, 8), (5, 2)]] {
+                if spec.len() == 3 && (fi % 3 != 0 || ctx.quick()) {
+                    continue;
+                }
+                let lv = levels(&spec);
+                let at = lv.len() - 1 - (fi % (lv.len() - 1));
+                let qs: Vec<u32> = lv.iter().map(|l| rng.below(1u64 << l.h) as u32).collect();
+                let msg = rng.bytes(24);
+                let (o, v) = (*off, *val);
+                let f = move |orig: &[u8]| {
+                    let mut b = orig.to_vec();
+                    b[o..o + 4].copy_from_slice(&v.to_be_bytes());
+                    b
+                };
+                let (sig, pk) = hss::synthetic_triple_forged(&cfg, &lv, &qs, &msg, rng, Some((at, &f)));
+                let _ = what;
+                pool.push(Triple { alg, levels: lv, seed: sig[4..12].to_vec(), counter: 1000 + fi as u64, msg, sig, pk, origin: "model-signed-forged-child-key" });
+            }
+        }
+    }
     // reference-tool signatures (SHA-256/32, real heights)
     if let Some(t) = tool {
         for spec in [vec![(5u32, 8u32)], vec![(5, 4), (5, 8)]] {
